@@ -4,10 +4,13 @@ patch="$1"; tier="$2"; shift 2
 cd /verif
 git -C /repo diff --quiet || { echo "/repo is dirty"; exit 2; }
 git -C /repo apply "$patch" || { echo "patch does not apply"; exit 2; }
+# evidence written while /repo is altered must not replace the evidence of the real tree
+rm -rf /verif/scratch/evidence.keep; mkdir -p /verif/scratch; cp -r /verif/evidence /verif/scratch/evidence.keep
 for c in "$@"; do
   out=$(./check $c $tier 2>&1); rc=$?
   echo "$c rc=$rc $(echo "$out" | grep -E "^C[0-9]+ (quick|thorough)" | cut -c1-110)"
   echo "$out" | grep -E "^  [a-z].*:" | head -2 | cut -c1-400
 done
 git -C /repo checkout -- . 
+rm -rf /verif/evidence; mv /verif/scratch/evidence.keep /verif/evidence
 git -C /repo diff --quiet && echo "(repo restored)"
